@@ -4,6 +4,62 @@ use crate::cli_world::*;
 use crate::rng::Rng;
 use crate::rules::*;
 
+/// Run a representative set of commands once per process before anything is measured.
+/// Lazily initialised statics in ast-grep's dependencies create hash maps on the thread that
+/// touches them first; std gives every new map of a thread the thread's keys plus a running
+/// count, so the first launch of a process would otherwise see different map orders than
+/// every later launch (observed as a first-run-only divergence under a hash-order-sensitive
+/// mutant). After the warm-up all launches of a process start from the same state.
+pub fn warm_up() {
+  cli_run::quiet_panics();
+  let mut rng = Rng::new(99);
+  let mut rule_files = vec![];
+  let mut util_files = vec![];
+  let mut files = vec![];
+  let mut n = 0;
+  for lang in RULE_LANGS {
+    for t in TEMPLATES.iter().filter(|t| t.langs.contains(lang)) {
+      let s = instantiate(t, lang, "");
+      n += 1;
+      if t.is_util {
+        util_files.push(RuleFile { name: format!("u{n}.yml"), docs: vec![s] });
+      } else {
+        rule_files.push(RuleFile { name: format!("r{n}.yml"), docs: vec![s] });
+      }
+    }
+    let ext = crate::corpus::corpus(lang).ext;
+    files.push(SrcFile { path: format!("src/w{n}.{ext}"), text: gen_source(&mut rng, lang), hex: None, kind: "normal".into() });
+  }
+  let w = CliWorld {
+    files,
+    rule_dirs: vec![RuleDir { name: "rules".into(), files: rule_files }],
+    util_dirs: vec![RuleDir { name: "utils".into(), files: util_files }],
+    with_tests: true,
+    ignore_file: None,
+  };
+  let root = cli_run::scratch_root().join("warmup");
+  w.materialize(&root);
+  let a = |v: &[&str]| v.iter().map(|s| s.to_string()).collect::<Vec<_>>();
+  let sched = || Some(crate::sched::SchedCfg { seed: 1, policy: crate::sched::Policy::Canonical, k: 2, forced: None, forced_picks: None, faults: vec![], hash_seed: 1 });
+  for args in [
+    a(&["sg", "scan", "--json=stream", "-j", "2"]),
+    a(&["sg", "scan", "--json", "--inspect", "summary", "-j", "2"]),
+    a(&["sg", "scan", "--format", "github", "-j", "2"]),
+    a(&["sg", "scan", "--color", "never", "-j", "2"]),
+    a(&["sg", "scan", "--color", "never", "--report-style", "short", "-j", "2"]),
+    a(&["sg", "run", "-p", "console.log($A)", "--json=compact", "-j", "2"]),
+    a(&["sg", "run", "-p", "console.log($A)", "-l", "TypeScript", "--color", "never", "--heading", "never", "-j", "2"]),
+    a(&["sg", "scan", "-U", "-j", "2"]),
+    a(&["sg", "run", "-p", "foo($A, $B)", "-r", "foo($B, $A)", "-U", "-j", "2"]),
+  ] {
+    let _ = cli_run::run_cli(&root, &args, 1, sched());
+  }
+  let _ = cli_run::run_cli(&root, &a(&["sg", "test", "-U"]), 1, None);
+  let _ = cli_run::run_cli(&root, &a(&["sg", "test"]), 1, None);
+  let _ = cli_run::run_cli(&root, &a(&["sg", "scan", "--json=stream", "-j", "1", "no-such-file.ts"]), 1, None);
+  let _ = std::fs::remove_dir_all(&root);
+}
+
 fn corpus_check() -> i32 {
   use ast_grep_core::Language;
   use std::str::FromStr;
